@@ -11,7 +11,7 @@ use wire::*;
 use wtransport::error::{StreamReadError, StreamWriteError};
 use wtransport::{Connection, RecvStream, SendStream, VarInt};
 
-const RULE: &str = "case = runtime flavour x peer pair in {wtransport<->wtransport, raw peer signals / wtransport observes, wtransport signals / raw peer observes} x opener role x stream kind x direction of a bidirectional stream x signal in {reset(c), stop(c), finish (SendStream::finish, or tokio AsyncWriteExt::shutdown on the SendStream or on the joined BiStream that stays alive)} x phase in {before any data, after k bytes, after finish} x code c in {0, 63, 64, 16383, 16384, 2^30-1, 2^30, 2^62-1, random 62-bit}; plus 'finish only once acknowledged' through the UDP relay (black hole before writing). Oracle: reset(c) -> the peer's reads yield a prefix of the written bytes then Reset(c); stop(c) -> the peer's write (retried until the signal arrived), finish and stopped report Stopped(c); finish -> all bytes then end-of-stream and finish() returns Ok; codes on the wire equal c. Non-trivial: code >= 64 or phase other than 'before any data'; distinct = distinct case";
+const RULE: &str = "case = runtime flavour x peer pair in {wtransport<->wtransport, raw peer signals / wtransport observes, wtransport signals / raw peer observes} x opener role x stream kind x direction of a bidirectional stream x signal in {reset(c), stop(c), finish (SendStream::finish, or tokio AsyncWriteExt::shutdown on the SendStream or on the joined BiStream that stays alive)} x phase in {before any data, after k bytes, after finish} x the reader's method in {read into 512 bytes, read into 1..7 bytes, read_exact into 1..701 bytes} x code c in {0, 63, 64, 16383, 16384, 2^30-1, 2^30, 2^62-1, random 62-bit}; plus 'finish only once acknowledged' through the UDP relay (black hole before writing). Oracle: reset(c) -> the peer's reads yield a prefix of the written bytes then Reset(c); stop(c) -> the peer's write (retried until the signal arrived), finish and stopped report Stopped(c); finish -> all bytes then end-of-stream and finish() returns Ok; codes on the wire equal c. Non-trivial: code >= 64 or phase other than 'before any data'; distinct = distinct case";
 
 #[derive(Clone, Copy, Debug, Serialize, Deserialize, PartialEq)]
 pub enum Signal {
@@ -84,10 +84,30 @@ async fn open_wt_wt(case: &Case) -> Res<(SendStream, RecvStream, Box<dyn std::an
     }
 }
 
-async fn read_until_end(r: &mut RecvStream) -> (Vec<u8>, Result<(), StreamReadError>) {
+/// Reads to the end of the stream the way `how` says: 0 (mod 3) `read` into 512 bytes, 1 `read`
+/// into a tiny buffer, 2 `read_exact` into a buffer that is usually larger than what is available
+/// when the signal arrives (a reset must then be reported as the read error of `read_exact`, not
+/// as an early end-of-stream).
+async fn read_until_end(r: &mut RecvStream, how: u16) -> (Vec<u8>, Result<(), StreamReadError>) {
     let mut out = Vec::new();
-    let mut buf = [0u8; 512];
+    let size = match how % 3 {
+        0 => 512,
+        1 => 1 + (how as usize / 3) % 7,
+        _ => 1 + (how as usize / 3) % 701,
+    };
+    let mut buf = vec![0u8; size];
     loop {
+        if how % 3 == 2 {
+            match r.read_exact(&mut buf).await {
+                Ok(()) => out.extend_from_slice(&buf),
+                Err(wtransport::error::StreamReadExactError::FinishedEarly(n)) => {
+                    out.extend_from_slice(&buf[..n.min(size)]);
+                    return (out, Ok(()));
+                }
+                Err(wtransport::error::StreamReadExactError::Read(e)) => return (out, Err(e)),
+            }
+            continue;
+        }
         match r.read(&mut buf).await {
             Ok(Some(n)) => out.extend_from_slice(&buf[..n]),
             Ok(None) => return (out, Ok(())),
@@ -124,14 +144,14 @@ async fn exec_finish_tokio(case: Arc<Case>) -> CaseResult {
                 Box::new((os, or))
             };
             let (acs, mut acr) = tokio::time::timeout(bound, acceptor.accept_bi()).await.map_err(|_| "accept_bi timeout")?.map_err(|e| conn_err(&e))?;
-            let (got, end) = tokio::time::timeout(bound, read_until_end(&mut acr)).await.map_err(|_| "NO-EOF")?;
+            let (got, end) = tokio::time::timeout(bound, read_until_end(&mut acr, 0)).await.map_err(|_| "NO-EOF")?;
             Ok((got, end, Box::new((keep, acs, acr)) as Kept))
         } else {
             let mut os = opener.open_uni().await.map_err(|e| conn_err(&e))?.await.map_err(|e| e.to_string())?;
             os.write_all(&written).await.map_err(|e| e.to_string())?;
             tokio::time::timeout(bound, AsyncWriteExt::shutdown(&mut os)).await.map_err(|_| "shutdown() never returned")?.map_err(|e| e.to_string())?;
             let mut acr = tokio::time::timeout(bound, acceptor.accept_uni()).await.map_err(|_| "accept_uni timeout")?.map_err(|e| conn_err(&e))?;
-            let (got, end) = tokio::time::timeout(bound, read_until_end(&mut acr)).await.map_err(|_| "NO-EOF")?;
+            let (got, end) = tokio::time::timeout(bound, read_until_end(&mut acr, 0)).await.map_err(|_| "NO-EOF")?;
             Ok((got, end, Box::new((os, acr)) as Kept))
         }
     }
@@ -168,7 +188,8 @@ async fn exec_wt_wt(case: Arc<Case>) -> CaseResult {
             if w.write_all(&written).await.is_err() {
                 return viol("C06:finish:write", "write failed on a healthy stream");
             }
-            let reader = tokio::spawn(async move { read_until_end(&mut r).await });
+            let how = case.k.wrapping_add(case.code as u16);
+            let reader = tokio::spawn(async move { read_until_end(&mut r, how).await });
             match tokio::time::timeout(bound, w.finish()).await {
                 Ok(Ok(())) => {}
                 Ok(Err(e)) => return viol("C06:finish:error", format!("finish() = {e:?} on a healthy stream")),
@@ -204,7 +225,7 @@ async fn exec_wt_wt(case: Arc<Case>) -> CaseResult {
             if !finished && reset_res.is_err() {
                 return viol("C06:reset:refused", "reset() failed on an open stream");
             }
-            let (got, end) = match tokio::time::timeout(bound, read_until_end(&mut r)).await {
+            let (got, end) = match tokio::time::timeout(bound, read_until_end(&mut r, case.k.wrapping_add(case.code as u16))).await {
                 Ok(x) => x,
                 Err(_) => return CaseResult::Timeout("reader never saw the reset".into()),
             };
@@ -338,7 +359,7 @@ async fn exec_raw_signals(case: Arc<Case>) -> CaseResult {
             } else {
                 let _ = s.finish();
             }
-            let (got, end) = match tokio::time::timeout(bound, read_until_end(&mut r)).await {
+            let (got, end) = match tokio::time::timeout(bound, read_until_end(&mut r, case.k.wrapping_add(case.code as u16))).await {
                 Ok(x) => x,
                 Err(_) => return CaseResult::Timeout("reader never saw the end of the stream".into()),
             };
@@ -603,7 +624,7 @@ async fn exec_finish_needs_ack(case: Arc<Case>) -> CaseResult {
         Ok(other) => return viol("C06:finish:error", format!("finish() after the black hole was lifted = {other:?}")),
         Err(_) => return CaseResult::Timeout("finish() did not return after the black hole was lifted".into()),
     }
-    match tokio::time::timeout(Duration::from_secs(5), read_until_end(&mut r)).await {
+    match tokio::time::timeout(Duration::from_secs(5), read_until_end(&mut r, case.k.wrapping_add(case.code as u16))).await {
         Ok((got, Ok(()))) if got == body => {}
         Ok((got, end)) => return viol("C06:finish:bytes", format!("after finish() = Ok the reader has {} of {} bytes, end {:?}", got.len(), body.len(), end)),
         Err(_) => return CaseResult::Timeout("reader did not reach end-of-stream".into()),
